@@ -19,7 +19,10 @@ IsAddr(g) == g \in {"xor", "xoras", "mapped", "altserver", "origin", "other"}
 
 RefOutcome(e) ==
   LET g == e.scen.g IN
-  IF IsAddr(g) /\ WellFormedAddr(e.val)
+  \* (RFC 5389 s15.1: the first 8 bits MUST be ignored by receivers; the library reads a 16-bit family and
+  \*  refuses a non-zero first byte - an observation recorded in DESIGN.md, outside C07's statement - so the
+  \*  reference outcome is only predicted for values whose first byte is 0)
+  IF IsAddr(g) /\ WellFormedAddr(e.val) /\ e.val[1] = 0
   THEN LET d == IF g \in {"xor", "xoras"} THEN DecXor(e.val, e.tid) ELSE DecMapped(e.val)
        IN [r |-> "ok", ip |-> d.ip, port |-> d.port]
   ELSE IF g \in {"username", "realm", "nonce", "software"} THEN [r |-> "ok", val |-> e.val]
